@@ -741,6 +741,18 @@ class SaltedOrderSet(set):
     def __iter__(self):
         return iter(self._order())
 
+    # set algebra keeps the salted order (the builtin operators would hand back a plain set)
+    def __or__(self, o): return SaltedOrderSet(set.__or__(self, o))
+    def __ror__(self, o): return SaltedOrderSet(set.__or__(self, o))
+    def __and__(self, o): return SaltedOrderSet(set.__and__(self, o))
+    def __rand__(self, o): return SaltedOrderSet(set.__and__(self, o))
+    def __sub__(self, o): return SaltedOrderSet(set.__sub__(self, o))
+    def __xor__(self, o): return SaltedOrderSet(set.__xor__(self, o))
+    def union(self, *o): return SaltedOrderSet(set.union(self, *o))
+    def intersection(self, *o): return SaltedOrderSet(set.intersection(self, *o))
+    def difference(self, *o): return SaltedOrderSet(set.difference(self, *o))
+    def copy(self): return SaltedOrderSet(set.copy(self))
+
     def pop(self):
         if not len(self):
             raise KeyError('pop from an empty set')
